@@ -6,6 +6,22 @@ import ownlib
 from ownlib import hx, hxs
 
 
+class Prog:
+    """hand-written programs without counting handles by hand: h(op) appends an operation that binds a
+    new handle and returns its number, o(op) one that does not"""
+
+    def __init__(self):
+        self.ops, self.n = [], 0
+
+    def h(self, op):
+        self.ops.append(op)
+        self.n += 1
+        return self.n - 1
+
+    def o(self, op):
+        self.ops.append(op)
+
+
 class C06(vlib.PropertyCheck):
     id = 'C06'
     family = 'c05'
@@ -38,7 +54,10 @@ class C06(vlib.PropertyCheck):
               'empty state owning only the object block, reusable (C06_done_reusable); an object handed back by remove / remove_at / '
               'map remove is a separately held handle outside the container\'s tree, so deleting either never touches the other '
               '(C06_handed_back_not_owned); map set leaves the caller\'s key and value held and stores fresh copies '
-              '(C06_map_takes_copies); the only faults of the model are the two program errors - use of a handle that is not '
+              '(C06_map_takes_copies), also in the pair form SPIF_MAP_SET(map, pair, NULL) where the pair stays the caller\'s '
+              '(C06_map_pair_form_takes_copies) and when the map is handed its own stored value or entry '
+              '(C06_map_own_objects_back); the queries count / get / contains / find / index / map get / has_key / has_value '
+              'change nothing (C06_query_changes_nothing); the only faults of the model are the two program errors - use of a handle that is not '
               'held, wrong class (C06_no_library_fault). Decided by the correspondence check only: that the C code allocates and '
               'frees where the model says (after every operation the live-block count of the wrap layer equals the model\'s ledger; '
               'after the final deletions it is back at its start; no free of a non-live pointer; the same programs under ASan '
@@ -52,7 +71,8 @@ class C06(vlib.PropertyCheck):
         return exe, log
 
     def gen(self, tier, rng):
-        oracle = ownlib.calibrate(self._bump)
+        table = ownlib.calibrate(self._bump)
+        oracle = 're=?'                 # replaced at the end by the table entries each program needs
         cases = []
         S = ownlib.class_states()
         for name, ops in S:
@@ -69,8 +89,17 @@ class C06(vlib.PropertyCheck):
             if not name.startswith('re-bad'):
                 for c in 'ald':
                     cases.append('own %s ; %s ; cont L %s ; lappend %d %d ; dup %d ; delall' % (oracle, pre, c, n, x, n))
+                    # every query of the list with a copy of its element as probe
+                    cases.append('own %s ; %s ; dup %d ; dup %d ; cont L %s ; lappend %d %d ; query %d %d ; linsert_at %d %d 3 ; query %d %d ; '
+                                 'dumpall ; delall' % (oracle, pre, x, x, c, n + 2, x, n + 2, n, n + 2, n, n + 2, n + 1))
                     cases.append('own %s ; %s ; str 6b ; cont M %s ; mset %d %d %d ; mset %d %d %d ; mvalues %d _ ; mremove %d %d ; delall'
                                  % (oracle, pre, c, n + 1, n, x, n + 1, n, x, n + 1, n + 1, n))
+                    # the same through the pair form: the caller's pair (new key, then existing key) is deleted
+                    # before the map is read and deleted; then the map's own entry is handed back to set
+                    cases.append('own %s ; %s ; str 6b ; cont M %s ; pair %d %d ; msetp %d %d ; dump %d ; msetp %d %d ; del %d ; dump %d ; '
+                                 'msetown %d %d ; msetownp %d %d ; del %d ; dump %d ; mpairs %d _ ; dumpall ; delall'
+                                 % (oracle, pre, c, n, x, n + 1, n + 2, n + 1, n + 1, n + 2, n + 2, n + 1,
+                                    n + 1, n, n + 1, n, n, n + 1, n + 1))
         # done + reuse cycles on filled containers, removal of first / last / only entries, placeholders
         for c in 'ald':
             cases.append('own %s ; cont L %s ; str 61 ; lappend 0 1 ; str 62 ; lappend 0 2 ; str 63 ; lappend 0 3 ; lremove_at 0 0 ; '
@@ -86,6 +115,64 @@ class C06(vlib.PropertyCheck):
             cases.append('map %s ; cont M %s ; str 6b31 ; str 76 ; mset 0 1 2 ; str 6b30 ; mset 0 3 2 ; str 6b32 ; mset 0 4 2 ; cont L %s ; '
                          'mkeys 0 5 ; mvalues 0 5 ; mpairs 0 5 ; mpairs 0 _ ; dup 0 ; mremove 0 1 ; mremove 0 4 ; mremove 0 3 ; mremove 0 3 ; '
                          'dumpall ; delall' % (oracle, c, c))
+            # queries on filled / emptied containers (hit, miss, first, last)
+            cases.append('own %s ; cont L %s ; str 61 ; query 0 1 ; lappend 0 1 ; str 62 ; lappend 0 2 ; str 61 ; query 0 3 ; str 7a ; query 0 4 ; '
+                         'lremove_at 0 0 ; query 0 3 ; done 0 ; query 0 3 ; dumpall ; delall' % (oracle, c))
+            cases.append('own %s ; cont V %s ; str 62 ; query 0 1 ; vinsert 0 1 ; str 61 ; vinsert 0 2 ; str 63 ; vinsert 0 3 ; str 61 ; query 0 4 ; '
+                         'str 63 ; query 0 5 ; str 7a ; query 0 6 ; str 30 ; query 0 7 ; dumpall ; delall' % (oracle, c))
+            cases.append('own %s ; cont M %s ; str 6b ; query 0 1 ; str 76 ; mset 0 1 2 ; query 0 1 ; query 0 2 ; str 6a ; mset 0 3 1 ; query 0 3 ; '
+                         'query 0 1 ; mremove 0 1 ; query 0 1 ; dumpall ; delall' % (oracle, c))
+            # pair form of set: caller deletes the pair first / the map first / keeps editing the pair
+            cases.append('map %s ; cont M %s ; str 6b ; str 76 ; pair 1 2 ; msetp 0 3 ; del 3 ; dump 0 ; del 1 ; del 2 ; dump 0 ; delall' % (oracle, c))
+            cases.append('map %s ; cont M %s ; str 6b ; str 76 ; pair 1 2 ; msetp 0 3 ; del 0 ; dump 3 ; delall' % (oracle, c))
+            cases.append('map %s ; cont M %s ; str 6b ; str 76 ; pair 1 2 ; msetp 0 3 ; str 7732 ; setv 3 4 ; dump 0 ; msetp 0 3 ; dump 0 ; '
+                         'str 6b32 ; setk 3 5 ; msetp 0 3 ; dumpall ; delall' % (oracle, c))
+            # a pair without value / without key / emptied by done is refused (objpair_new_from_both ASSERTs both)
+            cases.append('map %s ; cont M %s ; str 6b ; pair 1 _ ; msetp 0 2' % (oracle, c))
+            cases.append('map %s ; cont M %s ; str 6b ; str 76 ; pair 1 2 ; msetp 0 3 ; done 3 ; dump 0 ; msetp 0 3' % (oracle, c))
+            cases.append('map %s ; cont M %s ; str 6b ; str 76 ; mset 0 1 2 ; mremove 0 1 ; msetp 0 3 ; msetp 0 3 ; msetownp 0 1 ; msetown 0 1 ; '
+                         'msetown 0 2 ; del 3 ; dumpall ; delall' % (oracle, c))
+            # a pair whose value is itself a container / a pair
+            cases.append('map %s ; cont M %s ; str 6b ; cont L %s ; str 65 ; lappend 2 3 ; pair 1 2 ; msetp 0 4 ; pair 1 4 ; msetp 0 5 ; dump 0 ; '
+                         'del 4 ; del 5 ; del 2 ; dump 0 ; dup 0 ; del 0 ; dumpall ; delall' % (oracle, c, c))
+            # iterators held across modification, emptying and deletion of their subject
+            for I in 'LV':
+                b = Prog()
+                fill = 'lappend' if I == 'L' else 'vinsert'
+                co = b.h('cont %s %s' % (I, c))
+                b.o('%s %d %d' % (fill, co, b.h('str 61')))
+                it = b.h('iter %d' % co)
+                b.o('%s %d %d' % ('lprepend' if I == 'L' else 'vinsert', co, b.h('str 62')))
+                b.h('dup %d' % it)
+                if I == 'L':
+                    b.h('lremove_at %d 0' % co)
+                else:
+                    b.h('vremove %d %d' % (co, b.h('str 61')))
+                b.h('dup %d' % it)
+                b.o('done %d' % co)
+                b.h('dup %d' % it)
+                b.o('%s %d %d' % (fill, co, b.h('str 63')))
+                b.h('dup %d' % it)
+                b.o('del %d' % co)
+                b.o('del %d' % it)
+                cases.append('own %s ; %s ; dumpall ; delall' % (oracle, ' ; '.join(b.ops)))
+            cases.append('own %s ; cont M %s ; iter 0 ; str 6b ; str 76 ; mset 0 2 3 ; dup 1 ; pair 2 3 ; msetp 0 5 ; mremove 0 2 ; dup 1 ; '
+                         'done 0 ; dup 1 ; del 0 ; del 1 ; dumpall ; delall' % (oracle, c))
+            # done() followed by re-use without init, twice over
+            cases.append('own %s ; cont V %s ; str 61 ; vinsert 0 1 ; done 0 ; str 62 ; vinsert 0 2 ; dup 0 ; done 0 ; done 0 ; str 63 ; '
+                         'vinsert 0 4 ; dumpall ; delall' % (oracle, c))
+            cases.append('own %s ; cont M %s ; str 6b ; str 76 ; mset 0 1 2 ; done 0 ; mset 0 2 1 ; pair 1 2 ; msetp 0 3 ; dup 0 ; done 0 ; '
+                         'msetp 0 3 ; dumpall ; delall' % (oracle, c))
+        # done() + re-use without init for the leaf classes
+        cases.append('own %s ; str 6162 ; done 0 ; append 0 63 ; done 0 ; done 0 ; append 0 64 ; dup 0 ; dumpall ; delall' % oracle)
+        cases.append('own %s ; str 6b ; str 76 ; pair 0 1 ; done 2 ; setk 2 0 ; setv 2 1 ; done 2 ; str 6b ; setk 2 3 ; dup 2 ; dumpall ; delall' % oracle)
+        cases.append('own %s ; tok 6120622063 ; eval 0 ; done 0 ; eval 0 ; str 7820792c7a ; setsrc 0 1 ; str 2c ; setsep 0 2 ; eval 0 ; '
+                     'done 0 ; done 0 ; str 71 ; setsrc 0 3 ; eval 0 ; dup 0 ; dumpall ; delall' % oracle)
+        cases.append('own %s ; url 78713a2f2f753a7077406838312f703f71 ; done 0 ; unparse 0 ; str 6868 ; urlset 0 3 1 ; str 3939 ; urlset 0 4 2 ; '
+                     'unparse 0 ; done 0 ; str 70 ; urlset 0 5 3 ; dup 0 ; dumpall ; delall' % oracle)
+        for fl in ('i', 'ms', 'x', '8', 'imsx', '^'):
+            cases.append('own %s ; re %s ; flags 0 %s ; dup 0 ; done 0 ; flags 0 %s ; compile 0 ; dup 0 ; init 0 ; dumpall ; delall'
+                         % (oracle, hxs('a.b'), hxs(fl), hxs(fl)))
         # tokenizer re-evaluation, setter overwrite
         cases.append('own %s ; tok 6120622063 ; eval 0 ; eval 0 ; str 20 ; setsep 0 1 ; eval 0 ; str 78 ; setsrc 0 2 ; eval 0 ; dup 0 ; delall' % oracle)
         cases.append('own %s ; str 6b ; str 76 ; pair 0 1 ; str 6b32 ; setk 2 3 ; str 7632 ; setv 2 4 ; setv 2 _ ; delall' % oracle)
@@ -98,7 +185,8 @@ class C06(vlib.PropertyCheck):
         for i in range(nprog // 4):
             name, ops = S[rng.randrange(len(S))]
             specs.append(('own', 'own', list(ops), len(ops) + rng.randint(3, 16)))
-        cases += ownlib.grow(rng, oracle, specs, 32)
+        cases = [ownlib.finalize(c, table) for c in cases]
+        cases += ownlib.grow(rng, table, specs, 32)
         self._cases = cases
         return cases
 
